@@ -227,7 +227,7 @@ class Checker:
         """
         if "files" in self.info:
             first = self.info["files"][0]["path"]
-            return (base / os.path.join(*first)).exists()
+            return (base / os.path.join(*first)).is_file()
         if "length" in self.info:
             return base.is_file()
         parts, tree = [], self.info.get("file tree", {})
@@ -237,7 +237,7 @@ class Checker:
             tree = tree[key]
         if parts == [self.name] and base.is_file():
             return True
-        return bool(parts) and (base / os.path.join(*parts)).exists()
+        return bool(parts) and (base / os.path.join(*parts)).is_file()
 
     def check_paths(self):
         """
